@@ -95,42 +95,173 @@ theorem sortHits_ne_nil {l : List Hit} (h : l ≠ []) : sortHits l ≠ [] :=
 
 /-! ### every stage keeps the position order -/
 
-theorem remOvFrom_sublist (env : Env) : ∀ (p : Hit) (rest : List Hit), (remOvFrom env p rest).Sublist (p :: rest)
-  | p, [] => by simp [remOvFrom]
-  | p, r :: rest => by
-    simp only [remOvFrom]
+/-! ### `_remove_overlapping`: indices, ranking, the kept set -/
+
+/-- the kept `(index, result)` pairs in index order -/
+def keptIdx (env : Env) (l : List Hit) : List (Nat × Hit) :=
+  sortBy leIdx (keepBest env [] (sortBy rankBefore (enumFrom 0 l)))
+
+theorem removeOverlapping_eq (env : Env) (l : List Hit) : removeOverlapping env l = (keptIdx env l).map (·.2) := rfl
+
+theorem enumFrom_map_snd : ∀ (n : Nat) (l : List Hit), (enumFrom n l).map (·.2) = l
+  | _, [] => rfl
+  | n, h :: t => by simp [enumFrom, enumFrom_map_snd (n + 1) t]
+
+theorem mem_enumFrom_iff : ∀ {n : Nat} {l : List Hit} {x : Nat × Hit},
+    x ∈ enumFrom n l ↔ n ≤ x.1 ∧ l[x.1 - n]? = some x.2
+  | n, [], x => by simp [enumFrom]
+  | n, h :: t, x => by
+    simp only [enumFrom, List.mem_cons, mem_enumFrom_iff (n := n + 1) (l := t)]
+    constructor
+    · rintro (rfl | ⟨h1, h2⟩)
+      · simp
+      · refine ⟨by omega, ?_⟩
+        have : x.1 - n = (x.1 - (n + 1)) + 1 := by omega
+        rw [this, List.getElem?_cons_succ]; exact h2
+    · rintro ⟨h1, h2⟩
+      by_cases e : x.1 = n
+      · left
+        rw [e, Nat.sub_self, List.getElem?_cons_zero] at h2
+        simp only [Option.some.injEq] at h2
+        exact Prod.ext e h2.symm
+      · right
+        refine ⟨by omega, ?_⟩
+        have : x.1 - n = (x.1 - (n + 1)) + 1 := by omega
+        rw [this, List.getElem?_cons_succ] at h2; exact h2
+
+theorem enumFrom_idx_lt : ∀ (n : Nat) (l : List Hit), (enumFrom n l).Pairwise (fun a b => a.1 < b.1)
+  | _, [] => by simp [enumFrom]
+  | n, h :: t => by
+    simp only [enumFrom]
+    refine List.Pairwise.cons ?_ (enumFrom_idx_lt (n + 1) t)
+    intro x hx
+    have := (mem_enumFrom_iff.mp hx).1
+    simp only; omega
+
+theorem enumFrom_idx_nodup (n : Nat) (l : List Hit) : ((enumFrom n l).map (·.1)).Nodup := by
+  rw [List.Nodup, List.pairwise_map]
+  exact (enumFrom_idx_lt n l).imp (fun h => by omega)
+
+/-- a list of members of `enumFrom n l` with increasing indices is a sub-list of it -/
+theorem sublist_enumFrom_of_sorted : ∀ (l : List Hit) (n : Nat) (k : List (Nat × Hit)),
+    (∀ x ∈ k, x ∈ enumFrom n l) → k.Pairwise (fun a b => a.1 < b.1) → k.Sublist (enumFrom n l)
+  | [], _, k, hk, _ => by
+    cases k with
+    | nil => exact List.Sublist.refl _
+    | cons x _ => have := hk x (by simp); simp [enumFrom] at this
+  | h :: t, n, k, hk, hs => by
+    cases k with
+    | nil => exact List.nil_sublist _
+    | cons x k' =>
+      have hsp := List.pairwise_cons.mp hs
+      have hx := hk x (by simp)
+      simp only [enumFrom, List.mem_cons] at hx
+      have tail_mem : ∀ y ∈ k', y ∈ enumFrom (n + 1) t := by
+        intro y hy
+        have h1 := hk y (List.mem_cons_of_mem _ hy)
+        simp only [enumFrom, List.mem_cons] at h1
+        rcases h1 with rfl | h1
+        · -- index n cannot come after x
+          have hlt := hsp.1 _ hy
+          rcases hx with rfl | hx
+          · simp at hlt
+          · have := (mem_enumFrom_iff.mp hx).1; simp only at hlt; omega
+        · exact h1
+      simp only [enumFrom]
+      rcases hx with rfl | hx
+      · exact (sublist_enumFrom_of_sorted t (n + 1) k' tail_mem hsp.2).cons_cons _
+      · apply List.Sublist.cons
+        apply sublist_enumFrom_of_sorted t (n + 1) (x :: k') _ hs
+        intro y hy
+        rcases List.mem_cons.mp hy with rfl | hy
+        · exact hx
+        · exact tail_mem y hy
+
+theorem rankBefore_total (a b : Nat × Hit) : rankBefore a b = true ∨ rankBefore b a = true := by
+  simp only [rankBefore, decide_eq_true_eq]; omega
+theorem rankBefore_trans (a b c : Nat × Hit) : rankBefore a b = true → rankBefore b c = true → rankBefore a c = true := by
+  simp only [rankBefore, decide_eq_true_eq]; omega
+theorem leIdx_total (a b : Nat × Hit) : leIdx a b = true ∨ leIdx b a = true := by
+  simp only [leIdx, decide_eq_true_eq]; omega
+theorem leIdx_trans (a b c : Nat × Hit) : leIdx a b = true → leIdx b c = true → leIdx a c = true := by
+  simp only [leIdx, decide_eq_true_eq]; omega
+
+theorem keepBest_mono (env : Env) : ∀ (kept l : List (Nat × Hit)), ∀ x ∈ kept, x ∈ keepBest env kept l
+  | kept, [], x, hx => by simpa [keepBest] using hx
+  | kept, h :: rest, x, hx => by
+    simp only [keepBest]
     split
-    · split
-      · exact (remOvFrom_sublist env r rest).trans (List.sublist_cons_self p _)
-      · exact (remOvFrom_sublist env p rest).trans
-          (List.Sublist.cons_cons p (List.sublist_cons_self r rest))
-    · exact (remOvFrom_sublist env r rest).cons_cons p
+    · exact keepBest_mono env kept rest x hx
+    · exact keepBest_mono env (kept ++ [h]) rest x (List.mem_append_left _ hx)
+
+theorem mem_keepBest (env : Env) : ∀ (kept l : List (Nat × Hit)), ∀ x ∈ keepBest env kept l, x ∈ kept ∨ x ∈ l
+  | kept, [], x, hx => by left; simpa [keepBest] using hx
+  | kept, h :: rest, x, hx => by
+    simp only [keepBest] at hx
+    split at hx
+    · rcases mem_keepBest env kept rest x hx with h1 | h1
+      · exact Or.inl h1
+      · exact Or.inr (List.mem_cons_of_mem _ h1)
+    · rcases mem_keepBest env (kept ++ [h]) rest x hx with h1 | h1
+      · rcases List.mem_append.mp h1 with h2 | h2
+        · exact Or.inl h2
+        · simp at h2; subst h2; exact Or.inr (by simp)
+      · exact Or.inr (List.mem_cons_of_mem _ h1)
+
+theorem keepBest_idx_nodup (env : Env) : ∀ (kept l : List (Nat × Hit)),
+    ((kept ++ l).map (·.1)).Nodup → ((keepBest env kept l).map (·.1)).Nodup
+  | kept, [], h => by simpa [keepBest] using h
+  | kept, x :: rest, h => by
+    simp only [keepBest]
+    split
+    · apply keepBest_idx_nodup env kept rest
+      refine h.sublist (List.Sublist.map _ ?_)
+      exact List.Sublist.append_left (List.sublist_cons_self x rest) kept
+    · apply keepBest_idx_nodup env (kept ++ [x]) rest
+      simpa using h
+
+theorem mem_keptIdx {env : Env} {l : List Hit} {x : Nat × Hit} (hx : x ∈ keptIdx env l) : x ∈ enumFrom 0 l := by
+  simp only [keptIdx, mem_sortBy] at hx
+  rcases mem_keepBest env [] _ x hx with h | h
+  · simp at h
+  · exact (mem_sortBy _).mp h
+
+theorem keptIdx_idx_lt (env : Env) (l : List Hit) : (keptIdx env l).Pairwise (fun a b => a.1 < b.1) := by
+  have h1 : (keptIdx env l).Pairwise (fun a b => a.1 ≤ b.1) :=
+    (sortBy_pairwise leIdx_total leIdx_trans _).imp (fun h => by simpa [leIdx] using h)
+  have h2 : ((keptIdx env l).map (·.1)).Nodup := by
+    have : ((keepBest env [] (sortBy rankBefore (enumFrom 0 l))).map (·.1)).Nodup := by
+      apply keepBest_idx_nodup
+      simp only [List.nil_append]
+      exact ((sortBy_perm rankBefore (enumFrom 0 l)).map _).nodup_iff.mpr (enumFrom_idx_nodup 0 l)
+    exact ((sortBy_perm leIdx _).map _).nodup_iff.mpr this
+  rw [List.Nodup, List.pairwise_map] at h2
+  exact (h1.and h2).imp (fun h => by omega)
+
+theorem keptIdx_sublist (env : Env) (l : List Hit) : (keptIdx env l).Sublist (enumFrom 0 l) :=
+  sublist_enumFrom_of_sorted l 0 _ (fun _ hx => mem_keptIdx hx) (keptIdx_idx_lt env l)
 
 theorem removeOverlapping_sublist (env : Env) (l : List Hit) : (removeOverlapping env l).Sublist l := by
-  cases l with
-  | nil => simp [removeOverlapping, removeOverlapping?]
-  | cons h t => simpa [removeOverlapping, removeOverlapping?] using remOvFrom_sublist env h t
+  have := (keptIdx_sublist env l).map (·.2)
+  rwa [enumFrom_map_snd] at this
 
 theorem removeOverlapping_ne_nil (env : Env) {l : List Hit} (h : l ≠ []) : removeOverlapping env l ≠ [] := by
   cases l with
   | nil => exact absurd rfl h
   | cons a t =>
-    simp only [removeOverlapping, removeOverlapping?, Option.getD_some]
-    cases t with
-    | nil => simp [remOvFrom]
-    | cons r rest =>
-      have aux : ∀ (p : Hit) (rest : List Hit), remOvFrom env p rest ≠ [] := by
-        intro p rest
-        induction rest generalizing p with
-        | nil => simp [remOvFrom]
-        | cons r rest ih =>
-          simp only [remOvFrom]
-          split
-          · split
-            · exact ih r
-            · exact ih p
-          · simp
-      exact aux a (r :: rest)
+    have hne : sortBy rankBefore (enumFrom 0 (a :: t)) ≠ [] := sortBy_ne_nil _ (by simp [enumFrom])
+    cases hs : sortBy rankBefore (enumFrom 0 (a :: t)) with
+    | nil => exact absurd hs hne
+    | cons x rest =>
+      have hx : x ∈ keepBest env [] (x :: rest) := by
+        simp only [keepBest, List.any_nil, Bool.false_eq_true, if_false, List.nil_append]
+        exact keepBest_mono env [x] rest x (by simp)
+      intro he
+      have : x.2 ∈ removeOverlapping env (a :: t) := by
+        rw [removeOverlapping_eq, keptIdx, hs]
+        exact List.mem_map.mpr ⟨x, (mem_sortBy _).mpr hx, rfl⟩
+      rw [he] at this
+      simp at this
 
 theorem merge_qs_of_le {a b : Hit} (h : a.qs ≤ b.qs) : (a.merge b).qs = a.qs := by
   simp only [Hit.merge]; omega
